@@ -15,8 +15,8 @@ COMPONENTS = sorted(c for g in GROUPS.values() for c in g.split(","))
 
 
 # cases per group and process: (asan, plain)
-CASES = {"deque": (12000, 3000), "lists": (10000, 3000), "arrays": (12000, 3000), "pq": (8000, 2500),
-         "twolevel": (10000, 3000)}
+CASES = {"deque": (24000, 6000), "lists": (20000, 6000), "arrays": (24000, 6000), "pq": (16000, 5000),
+         "twolevel": (20000, 6000)}
 
 
 def c14(tier):
@@ -65,10 +65,9 @@ SPEC = dict(
         "MinHeap/ThreadSafeMinHeap::remove(x) may take out one or all copies of x (the code does either depending on whether x is the top); only 'at least one copy went, nothing else changed' is demanded",
         "the state of a moved-from container is not inspected, it only has to be destructible",
         "LargeArray: every element is constructed before destroy()/~LargeArray() run, and destroy() is always followed by deallocate() or construct() (the destructor destroys again otherwise)",
-        "PODResizeableArray::assign is not called with an empty range (memcpy on possibly-null pointers with length 0)",
-        "FixedSizeRing::rbegin()/rend() const (no return statement) are only called in the sanitizer build, where UBSan stops the process deterministically",
         "a non-returning operation is detected by thread CPU time (2 s without completing one operation on <= a few hundred elements), never by wall-clock",
-        "operation classes that are known to end the process on the unchanged tree (remove() on an empty queue, gslist::front(), push_back of an own element, const reverse ring traversal, forward-only outer iterators) are enabled in a small fraction of the cases only, named in params; after 30 fatal errors of one (component, operation class) in one process family the remaining cases of that class are skipped and counted (cases_skipped_after_crash_cap)",
+        "flat_map range constructors and insert(first,last) follow std::map: of several elements with equivalent keys the first of the input range survives (inputs of 0..200 elements with heavy key duplication are compared element by element, keys and mapped values)",
+        "after 30 fatal errors of one component in one process family the remaining cases of that component are skipped and counted (cases_skipped_after_crash_cap); never reached on the fixed tree",
         "fatal errors (sanitizer report, failed Galois assert, signal) inside a case are classified in-process from the captured stderr and keyed C14:<component>:<check in flight or error class>-after-<operation>",
         "not monitorable at run time because they do not compile when used: LazyArray::at, flat_map::upper_bound/equal_range/operator==, optional<T>(optional<U>), InsertBag::begin()/end() const and InsertBag::const_iterator",
     ],
